@@ -106,6 +106,11 @@ def point_key(p):
     return tuple(meshgen.f2u(c) for c in p)
 
 
+def whole_has_no_orphans(lm):
+    used = {p for _, rows in lm["cells"] for r in rows for p in r}
+    return len(used) == len(lm["points"])
+
+
 def is_f3(pieces):
     """class predicate of finding F3: some later piece has no point that is not already in an earlier piece"""
     seen = set()
@@ -390,6 +395,8 @@ def eval_unstructured(ctx, batch, tmpdir):
                         ctx.inconsistent(case, "Spec.isPartition=0 on a generated partition", "1")
                     if rep["conf"] == "1" and rep["f3"] == "0" and rep["ok"] != "1":
                         ctx.inconsistent(case, "model: merged pieces do not read as the whole", "theorem C06_unstructured_partial")
+                    if whole_has_no_orphans(case["whole"]) and rep.get("okby") != rep["ok"]:
+                        ctx.inconsistent(case, "Spec.readsAsWholeBy=" + str(rep.get("okby")), "Spec.readsAsWhole=" + rep["ok"])
                     if (rep["ok"] == "1") != (model_c == ref_c):
                         ctx.inconsistent(case, "lean readsAsWhole=" + rep["ok"], "python content equality=%s" % (model_c == ref_c))
         # --- search: impl vs the property
